@@ -16,7 +16,7 @@ PANIC_CALLEES = [
     ('core::cell::RefCell::<T>::borrow_mut', 'refcell'), ('core::cell::RefCell::<T>::borrow', 'refcell'),
     ('alloc::vec::Vec::<T, A>::remove', 'vec_index'), ('alloc::vec::Vec::<T, A>::swap_remove', 'vec_index'),
     ('alloc::vec::Vec::<T, A>::insert', 'vec_index'), ('alloc::vec::Vec::<T, A>::drain', 'drain'),
-    ('alloc::vec::Vec::<T, A>::split_off', 'vec_index'),
+    ('alloc::vec::Vec::<T, A>::split_off', 'vec_index'), ('alloc::string::String::remove', 'string_index'),
     ('core::num::<impl usize>::pow', 'arith'), ('core::num::<impl i128>::pow', 'arith'),
 ]
 
